@@ -47,6 +47,9 @@ CASES = {
     "poly_sign ": [([31, 10], {})],
     "invert ": [([3, 0.1], {})],
     "hamsim ": [([16.0, 0.01], {})],
+    # long evolution times, where the phase finder sporadically refuses one of the two halves (depending on its random root
+    # choice): run under several states of NumPy's generator
+    "hamsim  ": [([20.0, 0.01], {}), ([24.0, 0.01], {})],
     "poly_thresh ": [([26, 8], {})],
     "poly2angles ": [(None, {"--poly": [0.0, 0.02] * 13}), (None, {"--poly": [0.015 * (-1) ** (i // 2) if i % 2 == 0 else 0.0 for i in range(35)]})],
     "angles": [("seqargs", {"--seqname": "fpsearch", "--seqargs": [5, 0.4]}), ("seqargs", {"--seqname": "erf_step", "--seqargs": [7]})],
@@ -54,6 +57,7 @@ CASES = {
 
 
 SPELL_RNG = [None]
+NP_SEED = [None]
 
 
 def spell(v):
@@ -184,7 +188,7 @@ def one(ctx, M, cmd, seqargs, opts, form, so, mode):
     ctx.count("cmd:" + cmd)
     ctx.count("form:" + form)
     ctx.count("mode:" + mode)
-    ctx.case([cmd, argv], True, {"argv": argv, "status": status, "model_row": row})
+    ctx.case([cmd, argv, NP_SEED[0]], True, {"argv": argv, "status": status, "model_row": row, "numpy_seed": NP_SEED[0]})
     replay = {"argv": argv}
     propagated = raised is not None and log["qspp"] and log["qspp"][-1][2] is raised
     if status != "ok" and not propagated:
@@ -192,6 +196,13 @@ def one(ctx, M, cmd, seqargs, opts, form, so, mode):
         return
     if propagated:
         ctx.count("library-exception-propagated")
+        ctx.count("library-exception-propagated:%s:%s" % (cmd, type(raised).__name__))
+    if status == "ok" and any(isinstance(q[2], Exception) for q in log["qspp"]):
+        # the library produced NO phases for one of the command's polynomials, yet the command carried on
+        ctx.violation("c20:refusal-swallowed:%s" % cmd, "the phase finder raised (%s) for one of the command's polynomials, but the command still delivered phases (%s)"
+                      % ([type(q[2]).__name__ for q in log["qspp"] if isinstance(q[2], Exception)], "returned" if ret is not None else "printed"),
+                      dict(replay, numpy_seed=NP_SEED[0]))
+        return
     if row == "help":
         ctx.violation("c20:model-row", "model has no dispatch row for documented command %s" % cmd, replay)
         return
@@ -269,6 +280,7 @@ def run(tier, seed):
     with stubs():
         import pyqsp.main as M
     rng = ctx.rng
+    np.random.seed(int(seed) % (2 ** 31))       # the library draws its root choices from NumPy's global generator: a run replays
     for cmd, cases in CASES.items():
         for seqargs, opts in cases:
             combos = [(f, m, sp) for f in ("comma", "bracket") for m in ("return", "json") for sp in (False, True)]
@@ -276,11 +288,17 @@ def run(tier, seed):
                 combos = [combos[int(i)] for i in rng.permutation(8)[:3]]
                 if not any(c[2] for c in combos):
                     combos[0] = (combos[0][0], combos[0][1], True)
+            seeds = [None] if cmd != "hamsim  " else [int(x) for x in rng.integers(0, 1000, size=(4 if tier == "quick" else 12))]
             for form, mode, sp in combos:
-                SPELL_RNG[0] = rng if sp else None        # plain repr() spelling, or a varied one
-                ctx.count("spelling:" + ("varied" if sp else "plain"))
-                so = "Wx" if cmd in ("fpsearch", "angles") else str(rng.choice(["Wx", "Wz"]))
-                one(ctx, M, cmd, seqargs if isinstance(seqargs, list) else None, opts, form, so, mode)
+                for npseed in seeds:
+                    SPELL_RNG[0] = rng if sp else None        # plain repr() spelling, or a varied one
+                    ctx.count("spelling:" + ("varied" if sp else "plain"))
+                    so = "Wx" if cmd in ("fpsearch", "angles") else str(rng.choice(["Wx", "Wz"]))
+                    NP_SEED[0] = npseed
+                    if npseed is not None:
+                        np.random.seed(npseed)
+                        ctx.count("numpy-seeded-run")
+                    one(ctx, M, cmd, seqargs if isinstance(seqargs, list) else None, opts, form, so, mode)
     # unknown commands: help text, no phases
     for cmd in ("zzz", "Poly2angles", "hamsim2", ""):
         out = io.StringIO()
